@@ -43,21 +43,23 @@ pub fn snap(pp: &ParsedPacket) -> Snap {
 }
 
 pub fn restore(s: &Snap) -> ParsedPacket {
-    ParsedPacket {
-        packet: s.packet.clone(),
-        offset_question: s.oq,
-        offset_answers: s.oa,
-        offset_nameservers: s.on,
-        offset_additional: s.oad,
-        offset_edns: s.oe,
-        edns_count: s.edns_count,
-        ext_rcode: s.ext_rcode,
-        edns_version: s.edns_version,
-        ext_flags: s.ext_flags,
-        maybe_compressed: s.maybe_compressed,
-        max_payload: s.max_payload,
-        cached: s.cached.clone(),
-    }
+    // field by field on top of a packet the library built itself, so that a field this harness does not
+    // know keeps the value the library gives a fresh packet (a struct literal would stop compiling)
+    let mut pp = ParsedPacket::empty();
+    pp.packet = s.packet.clone();
+    pp.offset_question = s.oq;
+    pp.offset_answers = s.oa;
+    pp.offset_nameservers = s.on;
+    pp.offset_additional = s.oad;
+    pp.offset_edns = s.oe;
+    pp.edns_count = s.edns_count;
+    pp.ext_rcode = s.ext_rcode;
+    pp.edns_version = s.edns_version;
+    pp.ext_flags = s.ext_flags;
+    pp.maybe_compressed = s.maybe_compressed;
+    pp.max_payload = s.max_payload;
+    pp.cached = s.cached.clone();
+    pp
 }
 
 // ---------------------------------------------------------------------------------------------
